@@ -14,12 +14,22 @@
   * `seek_tell`                                    nibabel/volumeutils.py:839-866 (`seekTell`)
   * `FileHolder.get_prepare_fileobj`, `Opener.close_if_mine`
                                                    nibabel/fileholders.py:52-82, nibabel/openers.py:246-249 (`prepare`, `closeIfMine`)
-  and the ORIGINAL control flow of the pinned tree (before the two fix commits): `analyzeSaveOrig`,
-  `niftiSaveOrig`.
+  * the `.mat` arithmetic of `Spm99AnalyzeImage.to_file_map` / `from_file_map`
+                                                   nibabel/spm99analyze.py:283-300, 316-333 (`spmM`, `spmMat`, `loadMat`)
+  * `data = np.asanyarray(self.dataobj); if isinstance(data, np.memmap): data = np.array(data)`
+                                                   nibabel/analyze.py:1005-1008, mghformat.py:546-550 (`materialize`, `Step.openW`)
+  and the ORIGINAL control flow of the pinned tree (before the fix commits): `analyzeSaveOrig`,
+  `niftiSaveOrig` (no restore in `finally`, no copy of a memory-mapped volume).
 
   Abstractions
-  * the image is (header consumables, dtype alias, data id, affine id, header-object id) + file_map id;
+  * the image is (header consumables, dtype alias, data id, affine, header attribute `default_x_flip`,
+    where the data come from, header-object id) + file_map id;
     floats in the header (scl_slope / scl_inter) are opaque bit patterns, `none` = NaN;
+  * the affine is `none` (`affine=None`) or a 4x4 matrix with INTEGER entries (the correspondence only
+    generates integer-valued affines, for which NumPy's float64 products are exact);
+  * the data source is an in-memory array or an ArrayProxy on a file, with or without memory mapping;
+    files are identified by IDENTITY (device/inode), never by the spelling of their path; data id 0 =
+    "garbage" (what is read from a file truncated under a live memory map);
   * a destination is three file objects (header / image / mat) of which only the position, the number of
     I/O calls and the number of bytes accepted matter; the bytes written are abstracted to a list of
     `Chunk`s that records, for every piece, the state it was computed from;
@@ -54,6 +64,61 @@ def Cls.isNifti : Cls → Bool
 inductive Alias where | compat | smallest
   deriving Repr, DecidableEq, Inhabited
 
+/-! ### 4x4 integer matrices (`np.dot` on 4x4 arrays) -/
+
+structure V4 where
+  x : Int
+  y : Int
+  z : Int
+  w : Int
+  deriving Repr, DecidableEq, Inhabited
+
+/-- rows r0..r3 -/
+structure M4 where
+  r0 : V4
+  r1 : V4
+  r2 : V4
+  r3 : V4
+  deriving Repr, DecidableEq, Inhabited
+
+def V4.add (a b : V4) : V4 := ⟨a.x + b.x, a.y + b.y, a.z + b.z, a.w + b.w⟩
+def V4.smul (k : Int) (a : V4) : V4 := ⟨k * a.x, k * a.y, k * a.z, k * a.w⟩
+/-- row vector times matrix = linear combination of the rows -/
+def V4.mulM (v : V4) (b : M4) : V4 :=
+  ((V4.smul v.x b.r0).add (V4.smul v.y b.r1)).add ((V4.smul v.z b.r2).add (V4.smul v.w b.r3))
+/-- `np.dot(a, b)` -/
+def M4.mul (a b : M4) : M4 := ⟨a.r0.mulM b, a.r1.mulM b, a.r2.mulM b, a.r3.mulM b⟩
+def M4.toList (m : M4) : List Int :=
+  [m.r0.x, m.r0.y, m.r0.z, m.r0.w, m.r1.x, m.r1.y, m.r1.z, m.r1.w,
+   m.r2.x, m.r2.y, m.r2.z, m.r2.w, m.r3.x, m.r3.y, m.r3.z, m.r3.w]
+
+/-- `np.diag([-1, 1, 1, 1])` -/
+def xflipM : M4 := ⟨⟨-1, 0, 0, 0⟩, ⟨0, 1, 0, 0⟩, ⟨0, 0, 1, 0⟩, ⟨0, 0, 0, 1⟩⟩
+/-- `from_111 = np.eye(4); from_111[:3, 3] = -1` (spm99analyze.py:326-327) -/
+def from111 : M4 := ⟨⟨1, 0, 0, -1⟩, ⟨0, 1, 0, -1⟩, ⟨0, 0, 1, -1⟩, ⟨0, 0, 0, 1⟩⟩
+/-- `to_111 = np.eye(4); to_111[:3, 3] = 1` (spm99analyze.py:296-297) -/
+def to111 : M4 := ⟨⟨1, 0, 0, 1⟩, ⟨0, 1, 0, 1⟩, ⟨0, 0, 1, 1⟩, ⟨0, 0, 0, 1⟩⟩
+
+/-- the `M` matrix of the `.mat` file (spm99analyze.py:322-328): optional x flip, then 1-based voxel origin -/
+def spmM (flip : Bool) (mat : M4) : M4 := (if flip then xflipM.mul mat else mat).mul from111
+/-- the `mat` matrix of the `.mat` file (spm99analyze.py:329) -/
+def spmMat (mat : M4) : M4 := mat.mul from111
+
+/-- the affine `Spm99AnalyzeImage.from_file_map` takes from a `.mat` file holding the variables
+    `mat?` / `M?` (spm99analyze.py:283-298): `mat` overrides `M`; `M` gets the header's flip; then
+    back to 0-based voxels. `none` = ValueError (neither variable). -/
+def loadMat (flip : Bool) (mat? M? : Option M4) : Option M4 :=
+  match mat?, M? with
+  | some m, _ => some (m.mul to111)
+  | none, some M => some ((if flip then xflipM.mul M else M).mul to111)
+  | none, none => none
+
+/-- where `np.asanyarray(img.dataobj)` takes the data from -/
+inductive Src where
+  | array                               -- an ndarray in memory
+  | proxy (file : Nat) (mmap : Bool)    -- ArrayProxy on the file with identity `file`; `mmap`: asanyarray gives an np.memmap
+  deriving Repr, DecidableEq, Inhabited
+
 /-- a float header field as raw bits; `none` = NaN ("compute at write time") -/
 abbrev Scl := Option Nat
 
@@ -70,7 +135,9 @@ structure Core where
   hdr    : Hdr
   alias  : Option Alias
   data   : Nat
-  affine : Nat
+  affine : Option M4
+  xflip  : Bool := true      -- `header.default_x_flip` (an attribute of the header object, not in its bytes)
+  src    : Src := .array
   hdrObj : Nat
   deriving Repr, DecidableEq, Inhabited
 
@@ -103,9 +170,9 @@ structure IoCall where
 
 /-- abstract bytes: each piece with the state it was computed from -/
 inductive Chunk where
-  | hdr (f : File) (h : Hdr) (affine : Nat)
+  | hdr (f : File) (h : Hdr) (affine : Option M4)
   | data (f : File) (dataId code : Nat) (scaled : Bool) (slope inter : Scl)
-  | mat (affine : Nat)
+  | mat (M mat : M4)                    -- the two variables of the `.mat` file
   | trailer (f : File)
   deriving Repr, DecidableEq, Inhabited
 
@@ -124,17 +191,21 @@ structure WEntry where
     * `exts`: (content bytes, pad bytes) of each NIfTI extension; size on disk = 8 + content + pad.
     * `mat`: sizes of the `write` calls of `scipy.io.savemat` (SPM) / of the MGH footer.
     * `resolve`: `_get_analyze_compat_dtype` / `_get_smallest_dtype` on the image data; `none` = ValueError.
-    * `writer`: see `WEntry`. -/
+    * `writer`: see `WEntry`.
+    * `destImage`: identity of the destination's IMAGE file (the file that holds the data); 0 = a file
+      that is not the source of any image (source files have identities ≥ 1). -/
 structure Env where
   owned   : Bool
   exts    : List (Nat × Nat)
   mat     : List Nat
   resolve : Alias → Option Nat
   writer  : Nat → WEntry
+  destImage : Nat := 0
 
 structure World where
   img     : Core
   bound   : Bool := false           -- `self.file_map = file_map` has been executed
+  live    : Option Nat := none      -- the local `data` is still a memory map of this file (not copied)
   calls   : Nat := 0
   written : Nat := 0
   posH    : Nat := 0
@@ -201,7 +272,9 @@ inductive Step where
   | seekTell (f : File) (write0 : Bool)   -- seek_tell(f, hdr.get_data_offset(), write0)
   | emitHdr (f : File)            -- the header bytes are taken from the header NOW
   | emitData (f : File)           -- the data bytes are computed by the writer
-  | emitMat | emitTrailer (f : File)
+  | emitMat (a : M4)              -- M, mat computed from the affine `a` and the header's default_x_flip
+  | emitTrailer (f : File)
+  | openW (f : File)              -- `get_prepare_fileobj('wb')`: a file opened BY NAME is truncated here
   | bindHeader                    -- self._header = hdr
   | bindFileMap                   -- self.file_map = file_map
   deriving Repr, DecidableEq, Inhabited
@@ -246,7 +319,13 @@ def exec (c : Ctx) : Step → World → Res
       (none, { w with out := .data f w.img.data w.img.hdr.dtype c.scaleMe
                                (if c.scaleMe then c.went.slope else none)
                                (if c.scaleMe then c.went.inter else none) :: w.out })
-  | .emitMat, w => (none, { w with out := .mat w.img.affine :: w.out })
+  | .emitMat a, w => (none, { w with out := .mat (spmM w.img.xflip a) (spmMat a) :: w.out })
+  | .openW f, w =>
+      -- truncating the file under a live memory map destroys the local `data` AND what the image's own
+      -- proxy will read from now on
+      if c.env.owned && f = .image && w.live = some c.env.destImage then
+        (none, { w with img := { w.img with data := 0 } })
+      else (none, w)
   | .emitTrailer f, w => (none, { w with out := .trailer f :: w.out })
   | .bindHeader, w => (none, { w with img := { w.img with hdrObj := c.hdrLocal } })
   | .bindFileMap, w => (none, { w with bound := true })
@@ -258,7 +337,7 @@ def runSteps (c : Ctx) : List Step → World → Res
 /-- `FileHolder.get_prepare_fileobj` on a holder with a file object: `obj.seek(self.pos)`; on a
     file opened by the Opener itself (owned) nothing is called on the object -/
 def prepare (env : Env) (f : File) : List Step :=
-  if env.owned then [] else [.ios [⟨f, .seek 0⟩]]
+  .openW f :: (if env.owned then [] else [.ios [⟨f, .seek 0⟩]])
 
 /-- `Opener.close_if_mine` -/
 def closeIfMine (env : Env) (f : File) : List Step :=
@@ -322,8 +401,17 @@ def tryFinally (body : World → Res) (cleanup : World → World) (w : World) : 
   let r := body w
   (r.1, cleanup r.2)
 
+/-- `data = np.asanyarray(self.dataobj); if isinstance(data, np.memmap): data = np.array(data)`
+    (analyze.py:1005-1008, mghformat.py:546-550): afterwards the local `data` is an independent array,
+    unless the copy is not made (`copy = false`: the pinned tree) and the proxy memory-maps its file -/
+def materialize (copy : Bool) (w : World) : World :=
+  { w with live := match w.img.src with
+      | .proxy f true => if copy then none else some f
+      | _ => none }
+
 /-- `AnalyzeImage.to_file_map` as it is NOW -/
-def analyzeSave (t : Gen.Traits) (env : Env) (dt : DtReq) (fault : Fault) (w : World) : Res :=
+def analyzeSave (t : Gen.Traits) (env : Env) (dt : DtReq) (fault : Fault) (w0 : World) : Res :=
+  let w := materialize true w0
   let h0 := w.img.hdr
   match applyOverride t dt h0 with
   | none => (some .headerData, w)
@@ -333,7 +421,8 @@ def analyzeSave (t : Gen.Traits) (env : Env) (dt : DtReq) (fault : Fault) (w : W
 
 /-- ORIGINAL control flow (pinned tree): `except WriterError: restore; raise` around the writer
     construction only, restore again at the very end; nothing on any other exception -/
-def analyzeSaveOrig (t : Gen.Traits) (env : Env) (dt : DtReq) (fault : Fault) (w : World) : Res :=
+def analyzeSaveOrig (t : Gen.Traits) (env : Env) (dt : DtReq) (fault : Fault) (w0 : World) : Res :=
+  let w := materialize false w0
   let h0 := w.img.hdr
   match applyOverride t dt h0 with
   | none => (some .headerData, w)
@@ -396,13 +485,17 @@ def withOpened (c : Ctx) (f : File) (body : List Step) (w : World) : Res :=
   | r => r
 
 /-- body of the `with file_map['mat'].get_prepare_fileobj(mode='wb') as mfobj:` block -/
-def matBody (env : Env) : List Step :=
-  [.emitMat, .ios (env.mat.map fun n => ⟨.mat, .write n⟩)]
+def matBody (env : Env) (a : M4) : List Step :=
+  [.emitMat a, .ios (env.mat.map fun n => ⟨.mat, .write n⟩)]
 
-/-- `Spm99AnalyzeImage.to_file_map`: the Analyze save, then the `.mat` file -/
+/-- `Spm99AnalyzeImage.to_file_map`: the Analyze save, then — unless the image has no affine — the
+    `.mat` file -/
 def spmSaveWith (inner : World → Res) (t : Gen.Traits) (env : Env) (fault : Fault) (w : World) : Res :=
   match inner w with
-  | (none, w1) => withOpened (mkCtx t env fault w1 w1.img.hdr) .mat (matBody env) w1
+  | (none, w1) =>
+      match w1.img.affine with
+      | none => (none, w1)
+      | some a => withOpened (mkCtx t env fault w1 w1.img.hdr) .mat (matBody env a) w1
   | r => r
 
 def spmSave (t : Gen.Traits) (env : Env) (dt : DtReq) (fault : Fault) (w : World) : Res :=
@@ -422,8 +515,9 @@ def mghCtx (t : Gen.Traits) (env : Env) (fault : Fault) (w : World) : Ctx :=
   { mkCtx t env fault w w.img.hdr with scaleMe := false }
 
 /-- `MGHImage.to_file_map` (no dtype parameter: passing one is a TypeError) -/
-def mghSave (t : Gen.Traits) (env : Env) (dt : DtReq) (fault : Fault) (w : World) : Res :=
-  if dt ≠ .none then (some .type, w) else
+def mghSave (t : Gen.Traits) (env : Env) (dt : DtReq) (fault : Fault) (w0 : World) : Res :=
+  if dt ≠ .none then (some .type, w0) else
+  let w := materialize true w0
   match withOpened (mghCtx t env fault w) .image (mghBody (mghCtx t env fault w)) w with
   | (none, w1) => runSteps (mghCtx t env fault w) [.bindHeader, .bindFileMap] w1
   | r => r
@@ -436,7 +530,7 @@ def mghSave (t : Gen.Traits) (env : Env) (dt : DtReq) (fault : Fault) (w : World
 def ciftiSave (env : Env) (dt : DtReq) (fault : Fault) (w : World) : Res :=
   let t := Gen.n2single
   let h := { w.img.hdr with offset := 0, slope := none, inter := none }
-  let inner0 : Core := { w.img with hdr := h, alias := none, affine := 0, hdrObj := w.img.hdrObj + 1 }
+  let inner0 : Core := { w.img with hdr := h, alias := none, affine := none, hdrObj := w.img.hdrObj + 1 }
   let inner : Option Core :=
     match dt with
     | .none => some inner0
@@ -447,7 +541,7 @@ def ciftiSave (env : Env) (dt : DtReq) (fault : Fault) (w : World) : Res :=
   | none => (some .headerData, w)
   | some i =>
       let r := niftiSave t env .none fault { w with img := i }
-      (r.1, { r.2 with img := w.img, bound := w.bound })
+      (r.1, { r.2 with img := { w.img with data := r.2.img.data }, bound := w.bound })
 
 def saveWorld (cls : Cls) (env : Env) (dt : DtReq) (fault : Fault) (w : World) : Res :=
   match cls with
